@@ -1,4 +1,5 @@
 pub mod aik;
+pub mod bp;
 pub mod conv;
 pub mod rng;
 pub mod schema;
